@@ -88,11 +88,12 @@ def run(ctx, deep=False):
         if hangs[0] >= 2:
             break
         one_os(nregs, ops)
-    for seq in ([], [1], [1, 1], [2, 1, 2, 3, 1], list(range(5)) * 2):
-        for mk in (list, tuple, iter, lambda s: (x for x in s)):
-            got = ns.unique_list(mk(seq))
-            if got != L.ref_first_occ(seq) or type(got) is not list:
-                ctx.violation("unique-list-first-occurrence", {"kind": "unique_list", "seq": seq}, "got %r" % (got,))
+    for seq in ([], [1], [1, 1], [1, 2], [2, 1], [2, 1, 2, 3, 1], list(range(5)) * 2):
+        for form in ("list", "tuple", "iter", "gen", "dict", "set"):
+            ctx.count("cases/unique_list")
+            got, alias, ufail = L.unique_list_check(ns, form, seq)
+            if ufail:
+                ctx.violation(ufail[0], {"kind": "unique_list", "seq": seq, "form": form}, ufail[1])
     if ctx.driver_ok():
         ctx.correspond("corr/c54:OrderedSet-vs-Model.OrderedSet", cases, impl_out, ctx.driver(reqs))
 
@@ -273,8 +274,8 @@ def replay(ctx, obj):
         fails = [f for f in L.misc_helper_checks(random.Random(0), 300) if f[1]["name"] == c["name"]]
         trace, req, fail = [], [], ((fails[0][0], fails[0][2]) if fails else None)
     elif kind == "unique_list":
-        got = ns.unique_list(list(c["seq"]))
-        trace, req, fail = [repr(got)], [], (None if got == L.ref_first_occ(c["seq"]) else ("unique-list-first-occurrence", repr(got)))
+        got, alias, ufail = L.unique_list_check(ns, c.get("form", "list"), c["seq"])
+        trace, req, fail = [repr(got) + (" ALIAS" if alias else "")], [], (tuple(ufail) if ufail else None)
     else:
         raise ValueError(kind)
     print("replay C54 %s %s\n  trace: %s\n  oracle: %s" % (kind, " ".join(req), " ".join(trace), fail))
